@@ -94,7 +94,7 @@ section
 variable {C : Codec} (hC : C.Valid)
 include hC
 
-theorem noCRLF_fmtDur {d : Int} (hd : d.natAbs ≤ durMax.toNat) : noCRLF (C.fmtDur d) = true :=
+theorem noCRLF_fmtDur {d : Int} (hd : DurDom d) : noCRLF (C.fmtDur d) = true :=
   noCRLF_of_all (fmtDur_chars hC hd) (by decide) (by decide)
 
 theorem noCRLF_fmtTime {t : Time} (hw : wfTime t = true) : noCRLF (C.fmtTime t) = true :=
